@@ -28,6 +28,29 @@ ENGINE_KINDS = {
 
 NOT_CLAIMED = {}
 
+ASAN_ENV = {"CAOVERIF_STACK_MB": "2048", "ASAN_OPTIONS": "detect_leaks=1:abort_on_error=0:halt_on_error=1"}
+
+
+def asan(engine, quick, thorough, leaks=True, **kw):
+    """the same engine and oracles rebuilt with AddressSanitizer (one sanitizer family per build).
+    leaks=False where the harness' own reference interpreter shares the process: its closures are reference-counted
+    cycles, which LeakSanitizer would report against the harness, not against cao-lang"""
+    env = dict(ASAN_ENV)
+    if not leaks:
+        env["ASAN_OPTIONS"] = env["ASAN_OPTIONS"].replace("detect_leaks=1", "detect_leaks=0")
+    d = {"engine": engine, "profile": "asan", "cases": {"quick": quick, "thorough": thorough}, "primary": False, "env": env, "stall_s": 120}
+    d.update(kw)
+    return d
+
+
+def miri(engine, quick, thorough, **kw):
+    """the same engine and oracles interpreted by Miri (Tree Borrows): uninitialised reads, out-of-bounds inside an
+    allocation, misalignment, invalid values, double drops that red-zone tools do not see"""
+    d = {"engine": engine, "profile": "miri", "cases": {"quick": quick, "thorough": thorough}, "primary": False, "stall_s": 1500,
+         "timeout_s": {"quick": 1800, "thorough": 7200}, "max_restarts": 3, "optional": True}
+    d.update(kw)
+    return d
+
 HIST_TECH = "runtime monitoring: seeded operation histories executed against the real collection and an executable reference model in lock-step, full-state comparison after every operation, drop-count registry"
 
 CHECKS = {
@@ -40,6 +63,8 @@ CHECKS = {
         "engines": [
             {"engine": "hashmap", "profile": "dev", "cases": {"quick": 4000, "thorough": 40000}, "primary": True},
             {"engine": "hashmap", "profile": "release", "cases": {"quick": 0, "thorough": 20000}, "primary": False},
+            asan("hashmap", 320, 8000),
+            miri("hashmap", 0, 64),
         ],
         "hard_floor": {"evaluations": 100, "counters": {"ops_compared": 1000}},
         "targets": {
@@ -62,6 +87,8 @@ CHECKS = {
         "engines": [
             {"engine": "handletable", "profile": "dev", "cases": {"quick": 4000, "thorough": 40000}, "primary": True},
             {"engine": "handletable", "profile": "release", "cases": {"quick": 0, "thorough": 20000}, "primary": False},
+            asan("handletable", 320, 8000),
+            miri("handletable", 0, 64),
         ],
         "hard_floor": {"evaluations": 100, "counters": {"ops_compared": 1000}},
         "targets": {
@@ -82,6 +109,8 @@ CHECKS = {
         "engines": [
             {"engine": "stacks", "profile": "dev", "cases": {"quick": 6000, "thorough": 80000}, "primary": True},
             {"engine": "stacks", "profile": "release", "cases": {"quick": 0, "thorough": 40000}, "primary": False},
+            asan("stacks", 320, 8000),
+            miri("stacks", 0, 64),
         ],
         "hard_floor": {"evaluations": 100, "counters": {"ops_compared": 1000}},
         "targets": {"quick": {"ops_compared": 100000}, "thorough": {"ops_compared": 1000000}},
@@ -128,6 +157,7 @@ CHECKS = {
         "engines": [
             {"engine": "prog-closures", "profile": "dev", "cases": {"quick": 4000, "thorough": 100000}, "primary": True},
             {"engine": "prog-closures", "profile": "release", "cases": {"quick": 0, "thorough": 100000}, "primary": False},
+            asan("prog-closures", 160, 8000, leaks=False),
         ],
         "hard_floor": {"evaluations": 100, "counters": {"feat:closure-created": 1000}},
         "targets": {"quick": {"feat:closure-created-in-callee": 5000, "feat:upvalue-read": 20000, "feat:upvalue-write": 5000, "scenario:same-card-position-in-two-modules": 300, "scenario:per-iteration-capture": 300, "scenario:shared-siblings": 300},
@@ -144,6 +174,7 @@ CHECKS = {
         "engines": [
             {"engine": "total", "profile": "dev", "cases": {"quick": 6000, "thorough": 60000}, "primary": True, "max_restarts": 200},
             {"engine": "total", "profile": "release", "cases": {"quick": 0, "thorough": 40000}, "primary": False, "max_restarts": 200},
+            asan("total", 320, 8000, max_restarts=200),
         ],
         "hard_floor": {"evaluations": 100, "counters": {"compile:.*": 100, "run:.*": 100}},
         "targets": {"quick": {"compile:Err:.*": 1000, "compile:Ok": 1000, "run:Err:.*": 1000, "loaded:json": 500, "loaded:yaml": 500},
@@ -217,6 +248,7 @@ CHECKS = {
         "rule": "seeded run/clear histories over program pools; evaluations = histories; non-trivial when the whole history was checked",
         "engines": [
             {"engine": "lifecycle", "profile": "dev", "cases": {"quick": 400, "thorough": 12000}, "primary": True, "args": {"property": "c05"}},
+            asan("lifecycle", 24, 1500, args={"property": "c05", "light": 1}),
         ],
         "hard_floor": {"evaluations": 100, "counters": {"ledger_events": 100000, "collections": 100}},
         "targets": {"quick": {"ledger_events": 1000000, "oom_genuine": 200, "churn_runs_completed": 2000, "clears_checked": 20000},
@@ -231,6 +263,7 @@ CHECKS = {
         "rule": "seeded run/clear histories over program pools; evaluations = histories; non-trivial when the whole history was compared",
         "engines": [
             {"engine": "lifecycle", "profile": "dev", "cases": {"quick": 400, "thorough": 12000}, "primary": True, "args": {"property": "c17"}},
+            asan("lifecycle", 24, 1500, args={"property": "c17", "light": 1}),
         ],
         "hard_floor": {"evaluations": 100, "counters": {"runs": 2000}},
         "targets": {"quick": {"runs": 100000, "histories_longer_than_256": 300, "failed_run_followed_by_comparison": 5000},
@@ -275,6 +308,7 @@ CHECKS = {
         "engines": [
             {"engine": "table", "profile": "dev", "cases": {"quick": 3000, "thorough": 80000}, "primary": True},
             {"engine": "table", "profile": "release", "cases": {"quick": 0, "thorough": 40000}, "primary": False},
+            asan("table", 160, 6000, leaks=False),
         ],
         "hard_floor": {"evaluations": 100, "counters": {"ops_compared": 10000}},
         "targets": {"quick": {"ops_compared": 500000, "get_after_pop": 10000, "append_after_pop": 10000, "aliased_table_stored": 5000, "histories:script": 10000},
@@ -290,6 +324,8 @@ CHECKS = {
         "engines": [
             {"engine": "stdlib", "profile": "dev", "cases": {"quick": 4000, "thorough": 100000}, "primary": True},
             {"engine": "stdlib", "profile": "release", "cases": {"quick": 0, "thorough": 50000}, "primary": False},
+            # the library under forced collections (heap audit + self-differential): callbacks and natives allocate
+            {"engine": "gc", "profile": "dev", "cases": {"quick": 120, "thorough": 6000}, "primary": False, "args": {"source": "stdlib", "max-singles": 120}},
         ],
         "hard_floor": {"evaluations": 100, "counters": {"judged:.*": 1000}},
         "targets": {"quick": {"judged:std.filter": 2000, "judged:std.map": 2000, "judged:std.any": 2000, "judged:std.min": 2000, "judged:std.max": 2000, "judged:std.min_by_key": 2000, "judged:std.max_by_key": 2000, "judged:std.sorted": 2000, "judged:std.sorted_by_key": 2000, "judged:std.to_array": 2000},
@@ -318,6 +354,10 @@ CHECKS = {
         "rule": "seeded host-call programs; distinct by seed; every judged case is non-trivial",
         "engines": [
             {"engine": "host", "profile": "dev", "cases": {"quick": 4000, "thorough": 100000}, "primary": True},
+            asan("host", 160, 8000, leaks=False),
+            # host calls with temporary arguments under forced collections (heap audit + self-differential)
+            {"engine": "gc", "profile": "dev", "cases": {"quick": 200, "thorough": 8000}, "primary": False, "args": {"source": "host", "max-singles": 200}},
+            asan("gc", 20, 1500, args={"source": "host", "sanitizer": 1, "max-singles": 32}),
         ],
         "hard_floor": {"evaluations": 100, "counters": {"typed_call_programs": 500, "reentries_checked": 500}},
         "targets": {"quick": {"conv:.*": 100000, "rejections_checked": 5000, "reentries_checked": 15000, "path:reentry:.*": 3000, "path:dynamic:.*": 10000},
